@@ -231,6 +231,79 @@ theorem reject_text_after_exponent (a r : List Char) (d y : Char) (hd : d ∈ ex
     rw [finishBlocks_error_of_badExp _ b hb (by rw [hbe]; simp) (by rw [hbe]; exact pyInt_none_of_bad_tail h t hbl y hyt hy1 hy2)]
     rfl
 
+/-- two different units of one base kind: two factors (any positions, any order, base or derived
+symbols — litres name their cube-root length, molars name `…mol` and `dm`) that name different base
+units for the same kind -/
+theorem reject_two_units (s : List Char) (hne : s ≠ []) (b1 b2 : Block)
+    (h1 : b1 ∈ scanBlocks s [] startBlock false) (h2 : b2 ∈ scanBlocks s [] startBlock false)
+    (f u1 u2 : String) (n1 : (f, u1) ∈ blockNames b1) (n2 : (f, u2) ∈ blockNames b2) (hu : u1 ≠ u2) :
+    (parseUnitsCore s).isError = true := by
+  rcases parseUnitsCore_cases s hne with he | ⟨_, he⟩
+  · rw [he]; rfl
+  · rw [he]
+    exact finishBlocks_error_of_conflict _ b1 b2 h1 h2 f u1 u2 n1 n2 hu
+
+example : (parseUnitsChars "m.cm".toList).isError = true ∧ (parseUnitsChars "s2/min".toList).isError = true ∧
+    (parseUnitsChars "L.m".toList).isError = true ∧ (parseUnitsChars "mM/mol".toList).isError = true ∧
+    (parseUnitsChars "M.mol/L".toList).isError = false := by decide +kernel
+
+/-- no supported symbol contains `+` (nor any of the other characters listed) -/
+theorem symbols_alphabet : ∀ s ∈ allSyms, ∀ c ∈ s.toList,
+    c ≠ '+' ∧ c ≠ '^' ∧ c ≠ '*' ∧ c ≠ ',' ∧ c ≠ '(' ∧ c ≠ ')' ∧ c ≠ ' ' ∧ c.isDigit = false := by
+  decide +kernel
+
+/-- signed positive exponent (`"m+2"`), and more generally any character that occurs in no symbol and
+is neither a separator, a digit, `-` nor `_`: wherever it stands, the text is rejected -/
+theorem reject_foreign_char (s : List Char) (x : Char) (hx : x ∈ s) (hsep : x ∉ sepChars) (hexp : x ∉ expChars)
+    (hd : x.isDigit = false) (hu : x ≠ '_') (hsym : ∀ w ∈ allSyms, x ∉ w.toList) :
+    (parseUnitsCore s).isError = true := by
+  have hne : s ≠ [] := by intro h; rw [h] at hx; simp at hx
+  rcases parseUnitsCore_cases s hne with he | ⟨hnb, he⟩
+  · rw [he]; rfl
+  · obtain ⟨b, hb, hl⟩ := scan_char_lands s [] startBlock false x hx (by simpa using hsep) (by simpa using hexp)
+      ⟨fun _ => rfl, fun h => by simp at h⟩
+    rcases hl with hl | ⟨h, t, hbe, hxt⟩
+    · refine reject_unknown_symbol s hne ⟨b, hb, fun hmem => ?_⟩
+      exact hsym _ hmem (by simpa using hl)
+    · have hbl : ∀ c ∈ h :: t, isBlank c = false := by
+        intro c hc
+        have := scan_chars_from_text (fun c => isBlank c = false) _ [] startBlock false (by simp) (by simp [startBlock]) hnb b hb c
+        exact this (by rw [hbe]; simp only [List.mem_append]; exact Or.inr hc)
+      rw [he]
+      show (finishBlocks (scanBlocks s [] startBlock false)).isError = true
+      rw [finishBlocks_error_of_badExp _ b hb (by rw [hbe]; simp) (by rw [hbe]; exact pyInt_none_of_bad_tail h t hbl x hxt hd hu)]
+      rfl
+
+theorem reject_signed_positive (s : List Char) (hx : '+' ∈ s) : (parseUnitsCore s).isError = true :=
+  reject_foreign_char s '+' hx (by decide) (by decide) (by decide) (by decide)
+    (fun w hw hc => (symbols_alphabet w hw '+' hc).1 rfl)
+
+/-! ### quantity text -/
+
+/-- non-numeric value, and value not separated from its unit (`"2m"`: the first blank-delimited token
+is `2m`, which `float()` does not read): whenever `float()` rejects the first token, the text is rejected -/
+theorem reject_nonnumeric_value (pyFloat : List Char → Option Rat) (s t : List Char) (rest : List (List Char))
+    (hs : splitBlank (stripBlank s) = t :: rest) (hf : pyFloat t = none) :
+    parseUnitValueChars pyFloat s = .error .badSyntax := by
+  simp only [parseUnitValueChars, hs, hf]
+
+/-- a value directly followed by unit text forms ONE token (so `float()` sees `value++unit`) -/
+theorem value_not_separated_is_one_token (v u : List Char) (hv : ∀ c ∈ v ++ u, isBlank c = false) (hne : v ++ u ≠ []) :
+    splitBlank (stripBlank (v ++ u)) = [v ++ u] := by
+  rw [stripBlank_of_noBlank _ hv, splitBlank_tok _ hne hv]
+
+/-- blanks inside the unit expression of a quantity reach `parse_units` (the tokens after the value
+are joined with the blank `uvUnitTokJoin`, not concatenated) -/
+theorem quantity_units_tokens_joined (pyFloat : List Char → Option Rat) (s t t1 t2 : List Char) (rest : List (List Char))
+    (v : Rat) (hs : splitBlank (stripBlank s) = t :: t1 :: t2 :: rest) (hf : pyFloat t = some v) :
+    parseUnitValueChars pyFloat s =
+      (match parseUnitsChars (t1 ++ ' ' :: joinSep [' '] (t2 :: rest)) with
+        | .error e => .error e
+        | .ok u => .ok ⟨v, u⟩) := by
+  have hj : uvUnitTokJoin.toList = [' '] := by decide
+  simp only [parseUnitValueChars, hs, hf, hj, joinSep, List.append_assoc, List.singleton_append]
+  rfl
+
 example : parseUnitsChars (showUnitsChars ⟨⟨"km", "h", "mol"⟩, ⟨-12, 1, 105⟩⟩) =
     .ok ⟨⟨"km", "h", "mol"⟩, ⟨-12, 1, 105⟩⟩ := by decide +kernel
 example : showUnitsChars ⟨⟨"km", "h", "mol"⟩, ⟨-12, 1, 105⟩⟩ = "km-12.h.mol105".toList := by decide +kernel
